@@ -47,7 +47,9 @@ class Live:
             self.addr = ("127.0.0.1", port)
             self.errpath = os.path.join(self.dir, "stderr.txt")
             args = [self.exe, "-disable-tls", "-addr", "127.0.0.1:%d" % port, "-metrics-log", os.path.join(self.dir, "metrics.log"),
-                    "-bridge-list-path", os.path.join(self.dir, "bridges.json"), "-allowed-relay-pattern", PATTERN, "-default-relay-pattern", PATTERN]
+                    "-bridge-list-path", os.path.join(self.dir, "bridges.json"), "-allowed-relay-pattern", PATTERN, "-default-relay-pattern", PATTERN,
+                    # the distinct-IP journal (off by default): every accepted /proxy poll is recorded in it
+                    "-ip-count-log", os.path.join(self.dir, "ip-count.log"), "-ip-count-mask", "verif-masking-key", "-ip-count-interval", "2s"]
             g4, g6 = os.path.join(vlib.REPO, "broker", "test_geoip"), os.path.join(vlib.REPO, "broker", "test_geoip6")
             if os.path.exists(g4) and os.path.exists(g6):
                 args += ["-geoipdb", g4, "-geoip6db", g6]
@@ -89,17 +91,34 @@ class Live:
                     self.proc.kill()
                     self.proc.wait(5)
 
-    def req(self, method, path, body=None, headers=None, timeout=40):
-        """-> (status, body, seconds); raises on a dropped connection / malformed response"""
+    def req(self, method, path, body=None, headers=None, timeout=40, source=None, gate=None):
+        """-> (status, body, seconds); raises on a dropped connection / malformed response.
+        source: local address to connect from (the broker takes the TCP peer as the proxy's address);
+        gate: a threading.Barrier passed after the connection is made and before the request is sent"""
         t0 = time.time()
-        c = http.client.HTTPConnection(self.addr[0], self.addr[1], timeout=timeout)
+        c = http.client.HTTPConnection(self.addr[0], self.addr[1], timeout=timeout, source_address=(source, 0) if source else None)
         try:
+            if gate is not None:
+                try:
+                    c.connect()
+                except OSError:
+                    if not source:
+                        raise
+                    c = http.client.HTTPConnection(self.addr[0], self.addr[1], timeout=timeout)   # no 127.x.y.z on this host
+                    c.connect()
+                try:
+                    gate.wait(15)
+                except threading.BrokenBarrierError:
+                    pass
             c.request(method, path, body=body, headers=headers or {})
             r = c.getresponse()
             data = r.read()
             return r.status, data, time.time() - t0
         finally:
             c.close()
+
+
+BURST = 48
 
 
 def proxy_poll_body(sid, nat, ptype="standalone"):
@@ -172,6 +191,23 @@ def run_binary(exe, workdir):
             time.sleep(0.02)
         if not registered:
             notshown.append("live: six proxy polls over TCP were not registered within 20 s (last /debug unavailable or different)")
+        # a burst of polls from distinct addresses (127.x.y.z as TCP peers), sent together once all are connected: the broker
+        # accounts their countries / distinct addresses at the same time; each waits in the restricted pool and is
+        # answered "no match" after the protocol's wait
+        gate = threading.Barrier(BURST)
+
+        def burst(k):
+            name = "burst%d" % k
+            try:
+                st, data, secs = live.req("POST", "/proxy", proxy_poll_body("burst%d" % k, "restricted", ["standalone", "webext", "badge"][k % 3]),
+                                          source="127.%d.%d.%d" % (1 + k % 100, k % 250, 1 + k % 200), gate=gate)
+                r = dict(status=st, body=data, secs=secs)
+            except Exception as e:
+                r = dict(error="%s: %s" % (type(e).__name__, e))
+            with lock:
+                results[name] = r
+        for k in range(BURST):
+            spawn(burst, k)
         # the idle proxy repeats its poll (same body, same session id) while the first one is still pending: both requests
         # must be answered after the protocol's wait
         spawn(proxy, "idle-poll-repeat", "idle0", "restricted")
@@ -203,7 +239,10 @@ def run_binary(exe, workdir):
             return dict(label="live-binary", request=name, outcome={k: (v[:300].decode("latin1") if isinstance(v, bytes) else v) for k, v in r.items()}, stderr=tail[-1200:])
 
         if died:
-            viol.append(("broker-process-died", "the broker process exited (rc=%s) while serving requests: %s" % (live.proc.returncode, tail[-400:]), rep("-")))
+            full = live.stderr_tail(200000)
+            fatal = [l for l in full.split("\n") if l.startswith("fatal error:") or l.startswith("panic:")]
+            viol.append(("broker-process-died", "the broker process exited (rc=%s) while serving requests: %s" % (
+                live.proc.returncode, (fatal[0] + " ... " if fatal else "") + tail[-400:]), rep("-")))
         # the slow ones: answered after the full wait
         slow = {"idle-poll": ("200 no match", lambda r: r["status"] == 200 and json.loads(r["body"]).get("Status") == "no match"),
                 "idle-poll-repeat": ("200 no match", lambda r: r["status"] == 200 and json.loads(r["body"]).get("Status") == "no match"),
@@ -226,6 +265,15 @@ def run_binary(exe, workdir):
                 if not good:
                     viol.append(("live-response-mismatch", "%s: answered %d %r, wanted %s" % (name, r["status"], r["body"][:80], want), rep(name)))
                 stats[name + "_s"] = round(r["secs"], 1)
+        nb = 0
+        for k in range(BURST):
+            r = results.get("burst%d" % k)
+            if r is not None and "error" not in r and r["status"] == 200 and b"no match" in r["body"]:
+                nb += 1
+            elif not died and not any(v[0] == "burst-poll-unanswered" for v in viol):
+                viol.append(("burst-poll-unanswered", "burst%d (one of %d polls sent together from distinct addresses): %s; wanted 200 no match" % (
+                    k, BURST, "no response" if r is None else r.get("error") or "%d %r" % (r["status"], r["body"][:80])), rep("burst%d" % k)))
+        stats["live_burst_polls_answered"] = nb
         quick = {"client-v-good": lambda r: r["status"] == 200 and json.loads(r["body"]).get("answer", "").startswith("ANSWER-FOR-") and "good-v" in json.loads(r["body"])["answer"],
                  "client-l-good": lambda r: r["status"] == 200 and r["body"].startswith(b"ANSWER-FOR-") and b"good-l" in r["body"]}
         for name, ok in quick.items():
@@ -286,6 +334,9 @@ def run_soak(test_exe, workdir, ms, race_label="", attempt=0):
     d = dict(t.split("=", 1) for t in line[0].split(" ")[1:] if "=" in t and not t.startswith("first="))
     first = line[0].split(" first=", 1)[1] if " first=" in line[0] else ""
     stats.update({"soak_" + k: int(v) for k, v in d.items() if v.isdigit()})
+    if stats.get("soak_ipjournal", 0) <= 0 or stats.get("soak_bursts", 0) <= 0:
+        notshown.append("soak: the distinct-IP journal stayed empty (size %s) or no burst poll ran (%s): the journal configuration was not exercised" % (
+            d.get("ipjournal"), d.get("bursts")))
     if d.get("ok") != "1":
         viol.append(("no-wellformed-response", "soak: %s requests did not get the expected well-formed response; first: %s" % (d.get("bad"), first[:300]),
                      dict(label="soak", summary=line[0][:600])))
